@@ -138,8 +138,12 @@ def gen_overlay_inner(r, depth):
 
 def gen_overrides(r):
     o = {}
-    for k in r.sample(["name", "payload", "extra", "trip", "k1"], r.choice([1, 1, 2])):
-        if k == "name":
+    for k in r.sample(["name", "payload", "extra", "trip", "k1", "nested", "groups"], r.choice([1, 1, 2])):
+        if k == "nested":
+            o[k] = g.gen_nested(r)
+        elif k == "groups":
+            o[k] = g.gen_groups(r)
+        elif k == "name":
             o[k] = r.choice(["alpha", "beta", "gamma-1"])
         elif k == "trip":
             o[k] = {r.choice(list(g.TRIPS)): True} if r.random() < 0.6 else {}
@@ -211,7 +215,7 @@ async def gen_family(r):
         if r.random() < 0.4:
             c["variant"] = True
         if "inputs" not in base and "inputOverrides" not in c and kind == "ResourceFunction" and not cases:
-            c["inputOverrides"] = {"name": "alpha", "payload": 1}
+            c["inputOverrides"] = g.gen_inputs(r)
         probe = dict(c, expectOutcome={"ok": {}})
         beh, run = await last_behaviour(kind, fn_spec, base, cases + [probe])
         if beh is None:
